@@ -341,6 +341,36 @@ static void user_types(void) {
   del(o); del(o2);
 }
 
+
+/* Strings held by value inside containers are ordinary Strings with their own heap buffer: every in-place operation
+   that works on a heap String works on them (only freeing the element itself is the container's business). */
+static void embedded_strings(void) {
+  var arr = new(Array, String), lst = new(List, String), tab = new(Table, Int, String), tre = new(Tree, Int, String);
+  char b[32];
+  int n = 3 + (int)below(5);
+  for (int i = 0; i < n; i++) {
+    snprintf(b, sizeof b, "s%d-%d", i, (int)below(100));
+    push(arr, $S(b)); push(lst, $S(b)); set(tab, $I(i), $S(b)); set(tre, $I(i), $S(b));
+  }
+  for (int k = 0; k < 12; k++) {
+    int i = (int)below(n), j = (int)below(n);
+    var c[4] = { get(arr, $I(i)), get(lst, $I(i)), get(tab, $I(i)), get(tre, $I(i)) };
+    for (int q = 0; q < 4; q++) {
+      switch (below(6)) {
+        case 0: append(c[q], $S("+a")); break;
+        case 1: concat(c[q], q == 0 ? get(lst, $I(j)) : get(arr, $I(j))); break;      /* never a String with itself: strcat(s, s) is undefined in C too */
+        case 2: resize(c[q], (size_t)below(6)); break;
+        case 3: assign(c[q], $S("assigned over the element")); break;
+        case 4: print_to(c[q], (int)len(c[q]), "<%i|%s>", $I(k), $S("fmt")); break;
+        default: if (mem(c[q], $S("a"))) { rem(c[q], $S("a")); } break;
+      }
+    }
+  }
+  out_seq("embedded Array<String>", arr); out_seq("embedded List<String>", lst);
+  for (int i = 0; i < n; i++) { OUT("embedded Table[%d]=%s Tree[%d]=%s", i, c_str(get(tab, $I(i))), i, c_str(get(tre, $I(i)))); }
+  del(arr); del(lst); del(tab); del(tre);
+}
+
 static void files(const char* dir_tag) {
   char path[128]; snprintf(path, sizeof path, "c18-%s.tmp", dir_tag);
   var f = new(File, $S(path), $S("w+"));
@@ -368,7 +398,7 @@ int main(int argc, char** argv) {
   int rounds = 3 + (int)below(3);
   for (int i = 0; i < rounds; i++) {
     OUT("--- round %d", i);
-    sequences(); maps(); strings_and_formats(); exceptions(); values_and_types(); user_types(); files(tag);
+    sequences(); maps(); strings_and_formats(); exceptions(); values_and_types(); user_types(); embedded_strings(); files(tag);
   }
   OUT("done");
   return 0;
